@@ -18,6 +18,9 @@ EXPLANATION = (
     "R4 master block -- it is passed only when len(family) > 1 and genetic_haplotyping, and is homozygous ∩ accessible (or the re-derived homozygous set under --distrust-genotypes); "
     "R5 one-based naming -- PS/HP/HS write component + 1 where the component is a 0-based record.start position."
 )
+EXPLANATION += (
+    " " + "R2 also: every definition of a read's `positions` in find_components is a comprehension over the read's own variants (a slice of the global position list would merge positions the read does not cover)."
+)
 NOT_DECIDED = "That the union-find ends with the right partition for every merge sequence (C18's history quantifier); effects of read selection on connectivity."
 ASSUMPTIONS = ["values handed to one ComponentFinder are distinct and totally ordered by <"]
 
@@ -85,8 +88,14 @@ def r2(ctx):
     rl = [n for n in walk_function(fc.node) if isinstance(n, ast.For) and u(n.iter) == reads_p]
     ctx.require(len(rl) == 1, "loop over reads not found in find_components")
     readv = u(rl[0].target)
-    comps = [(s, v) for s, v in util.assignments_to(fc.node, "positions") if isinstance(v, ast.ListComp)]
-    ctx.require(len(comps) == 2, "expected two definitions of `positions` (with / without het map)")
+    alldefs = [(s, v) for s, v in util.assignments_to(fc.node, "positions") if isinstance(v, ast.AST)]
+    comps = [(s, v) for s, v in alldefs if isinstance(v, ast.ListComp)]
+    ctx.require(len(alldefs) >= 1, "no definition of `positions` in find_components")
+    for s, v in alldefs:
+        if not isinstance(v, ast.ListComp):
+            ctx.ob(fc.qual, "read-positions-come-from-the-read", False, fc.loc(s), "positions = %s is not a selection of the read's own variant positions: positions the read does not cover would be merged into its component" % u(v)[:80])
+    if len(comps) == len(alldefs):
+        ctx.ob(fc.qual, "read-positions-come-from-the-read", True, fc.loc(), "every definition of `positions` (%d) is a comprehension over the read's own variants" % len(comps))
     for s, v in comps:
         ga = guard_atoms(cfg, cfg.node_of(s))
         g = v.generators[0]
